@@ -40,6 +40,7 @@ fn main() {
         "u2f-wf" => guarded(move || u2f::wellformed_parses(&hex(&arg))),
         "status-byte" => guarded(move || status::status_byte(&hex(&arg))),
         "flags-byte" => guarded(move || status::flags_byte(&hex(&arg))),
+        "authdata-decode" => guarded(move || status::authdata_decode(&arg)),
         "cbor-bytes" => guarded(move || cbor::bytes(&hex(&arg))),
         "cbor-make-credential-request" => guarded(move || cbor::mc_request(&hex(&arg))),
         "ceremony" => guarded(move || ceremony::run(&arg)),
